@@ -1389,6 +1389,45 @@ func (w *W) builtin(s *State, b *ssa.Builtin, args []Value) Value {
 			}
 		}
 		return res
+	case "SliceData": // unsafe.SliceData
+		sl := args[0].(SliceV)
+		if sl.Nil {
+			return PtrV{Nil: true}
+		}
+		return PtrV{Obj: sl.Obj, Path: []int{sl.Off}}
+	case "StringData": // unsafe.StringData
+		str := args[0].(StrV)
+		el := make([]Value, str.Len())
+		for i := range el {
+			el[i] = str.Byte(i)
+		}
+		return PtrV{Obj: w.e.alloc(s, ArrayV{el}), Path: []int{0}}
+	case "String": // unsafe.String(ptr, len)
+		n, ok := concInt(args[1])
+		if !ok {
+			panic(execErr{"unsafe.String with symbolic length"})
+		}
+		if n == 0 {
+			return StrV{}
+		}
+		p := args[0].(PtrV)
+		if p.Nil || len(p.Path) != 1 {
+			panic(execErr{"unsafe.String on unsupported pointer"})
+		}
+		return w.bytesToStr(s, SliceV{Obj: p.Obj, Off: p.Path[0], Len: n, Cap: n})
+	case "Slice": // unsafe.Slice(ptr, len)
+		n, ok := concInt(args[1])
+		if !ok {
+			panic(execErr{"unsafe.Slice with symbolic length"})
+		}
+		p := args[0].(PtrV)
+		if p.Nil {
+			return SliceV{Nil: true}
+		}
+		if len(p.Path) != 1 {
+			panic(execErr{"unsafe.Slice on unsupported pointer"})
+		}
+		return SliceV{Obj: p.Obj, Off: p.Path[0], Len: n, Cap: n}
 	case "recover":
 		return IfaceV{}
 	case "print", "println":
